@@ -22,7 +22,8 @@ def _fails(mod, scn, cls):
     try:
         hist = run.execute(scn)
         viols = mod.check(scn, hist)
-    except (HarnessError, IndexError, KeyError, AttributeError, TypeError, ValueError, TimeoutError):
+    except Exception:
+        # the candidate is not a well-formed scenario any more (e.g. an op lost the op it depends on)
         return False
     finally:
         signal.alarm(0)
